@@ -227,6 +227,10 @@ func seqCase(rep *vh.Report, env vh.Env, i int) {
 	// the sequence: one exact host, one primary variant kind, both orders, then a few more related requests
 	e := centres[r.Intn(len(centres))]
 	kind := seqKinds[(i/len(seqTemplates))%len(seqKinds)]
+	caseTwins := tpl.name == "simple-case-twins"
+	if caseTwins && (kind == "twin" || kind == "near-miss") {
+		kind = "case" // the names that matter here differ in case only
+	}
 	variantFirst := (i/(len(seqTemplates)*len(seqKinds)))%2 == 0
 	v := seqStep{host: seqVariant(r, kind, e), kind: kind}
 	ex := seqStep{host: e, kind: "exact"}
@@ -254,7 +258,7 @@ func seqCase(rep *vh.Report, env vh.Env, i int) {
 			}
 		}
 	}
-	if len(steps) < 6 && r.Intn(2) == 0 {
+	if len(steps) < 6 && (caseTwins || r.Intn(2) == 0) {
 		// end on the sibling exact host of the template (the other twin / the ported host), if there is one
 		for _, e2 := range centres {
 			if e2 != e {
